@@ -45,6 +45,15 @@ CLAIMED.update({
     "C12": ("exact randomized polynomial-identity testing on 64-bit integers through the library's own code (object arrays) + Hypothesis float cases + SymPy expansion of the same identities",
             EXPL + "Hamilton-algebra identities are executed exactly on big integers (Schwartz-Zippel identity test), in floats for magnitudes 1e-6..1e6, for powers |n|<=6, the 3-vector form, rate functions, exp/log, and dual quaternions (associativity, 8x8 matrix, conjugate, norm).",
             "Python integer arithmetic; reference product table in pbt/refs.py; the symbolic pass is supplementary", "4/C12"),
+    "C08": ("exhaustive enumeration of (operator x left kind x right kind x length pair) cells against an oracle table transcribed from the operator documentation + Hypothesis-drawn operand values",
+            EXPL + "all ordered pairs of the 16 public classes plus scalars and arrays under * / + - ** @ == != ^ | and single/multi-valued operands (about 6000 cells) are executed; undocumented mixed-class pairs must raise, documented pairs must return the documented class, length and (for the pairs named in the statement) the reference value; never None, an identity or foreign elements.",
+            "the table DOC in pbt/props/c08_types.py (DESIGN.md appendix A); ndarray-left cells excluded", "4/C08"),
+    "C09": ("exhaustive (class x operator x m x n) cells for m,n in 1..5 + Hypothesis-drawn distinct element values; metamorphic oracle: multi-valued result element i = single-valued operation on the i-th elements",
+            EXPL + "every vectorised operator and per-value accessor/unary method of the eight list-capable classes is compared element by element with the same operation on single-valued operands; mismatching lengths must raise ValueError.",
+            "the single-valued operation is the reference (its own correctness is decided by other properties)", "4/C09"),
+    "C11": ("Hypothesis-generated pose pairs with relative rotation 1e-12..pi-1e-6 and s values concentrated at the ends; geometric oracle (fixed axis, angle proportional to s, linear translation) from reference axis-angle",
+            EXPL + "trinterp, trinterp2, slerp, pose.interp and UnitQuaternion.interp are judged on endpoints, validity, linear translation, constant-rate rotation about the fixed axis along the arc taken, range errors, vector s and mutual agreement.",
+            "reference axis_angle / Rodrigues in pbt/refs.py; antipodal pairs on the long arc excluded as the statement says (matrix routes: classified with the library's own r2q)", "4/C11"),
 })
 
 NOT_YET = {}
